@@ -64,16 +64,27 @@ def fill(claim, na):
               "its sequential semantics of atomics (interleavings only where an operation is injected: between operations and inside poll), "
               "read-only accessors appended under cfg(kani) in the overlay. Bounded: wake count 0..3, surplus references 0..2, one task. "
               "NOT decided: C11 memory orderings, work stealing, the multi-threaded worker loop.")
-    claim("C13", "E1 kani-overlay", K_TECH,
+    T_TECH = (" + symbolic execution of the MIR of runnable::run and Task::wake/wake_by_ref (mirse), one thread at a time, with the atomic "
+              "accesses to the task state word as events of an axiomatic C11 release/acquire model decided by z3 (reads-from, modification "
+              "order and happens-before are solver variables): run || publish+wake(+run) client programs; witnesses replayed under loom")
+    T_NOTE = (" C11 part (E3): decided for the client programs listed in the evidence only (a scheduled task run by one thread while another "
+              "publishes, wakes by reference and runs the Runnable it obtains; two such wakers on an idle task; <= 3 polls per thread); the "
+              "future is a script, the scheduling function hands the Runnable to the waking thread; cancel, handle drops, wake by value and the "
+              "output hand-over are NOT covered by the C11 part.")
+    claim("C13", "E1 kani-overlay + E2 mirse + E3 axc11", K_TECH + T_TECH,
           "Inductive step: from every state of the task word that the phase table allows (Polling idle/scheduled, Completed, Wind-down, "
           "Closed; symbolic wake/reference counts) each handle operation (Runnable run/drop, Waker clone/wake/wake_by_ref/drop, "
           "CancelToken cancel/drop, Promise poll/drop, also injected inside poll) keeps the invariant, polls at most once at a time and "
           "never after completion/cancellation, re-polls after a wake during poll, and releases future/output exactly once (CBMC's "
-          "pointer checks catch use-after-free/double free).", K_NOTE, "DESIGN.md §5 C13")
-    claim("C05", "E1 kani-overlay", K_TECH,
+          "pointer checks catch use-after-free/double free). Under the C11 memory model (E3): in no consistent execution of the client "
+          "programs do two polls race on the future or is a wake-up lost (some poll sees what the waker published).",
+          K_NOTE.replace("NOT decided: C11 memory orderings,", "NOT decided:") + T_NOTE, "DESIGN.md §5 C13")
+    claim("C05", "E1 kani-overlay + E2 mirse + E3 axc11", K_TECH + T_TECH,
           "Task-layer core of model isolation: a second Runnable is never created while one exists, a wake during poll leads to a re-poll "
-          "by the same Runnable, polls never overlap (checked by a ghost flag inside the future), from every symbolic task state.",
-          K_NOTE + " The two type-system facts (one task owns model+receiver; recv awaits the handler) are not checked.", "DESIGN.md §5 C05")
+          "by the same Runnable, polls never overlap (checked by a ghost flag inside the future), from every symbolic task state. Under the "
+          "C11 memory model (E3): two concurrent wakers of an idle task never both obtain a Runnable, and consecutive polls of the future "
+          "are ordered by happens-before (no data race on the future) in every consistent execution of the client programs.",
+          K_NOTE.replace("NOT decided: C11 memory orderings,", "NOT decided:") + T_NOTE + " The two type-system facts (one task owns model+receiver; recv awaits the handler) are not checked.", "DESIGN.md §5 C05")
     claim("C19", "E1 kani-overlay", K_TECH,
           "Task-layer obligations of dropping an executor: cancel / Runnable drop / handle drops from every symbolic task state release the "
           "future and the output exactly once, a wake issued after cancellation schedules nothing, the last owner frees the task.",
